@@ -416,10 +416,10 @@ CONFIG['C02'] = _resize_cfg(
     "horiz_convolution_one_row and horiz_convolution_four_rows of src/convolution/u8x4/sse4.rs: 16-byte loads, pshufb with the seven masks taken from the source, "
     "madd_epi16, add_epi32, the 8 / 4 / 2 / 1 coefficient steps, srai / packs / packus - and proved equal to the portable kernel for every "
     "precision, coefficient list and source row (u8x4_sse4_one_row_eq_portable / _eq_passInt, u8x4_sse4_four_rows_eq_portable). The lane plumbing of the other kernels is tied by correspondence over every remainder branch of every kernel.",
-    ["shuffle masks, lane placement and load widths are modelled and proved for five kernels (U8x4 SSE4.1 horizontal pass: "
+    ["shuffle masks, lane placement and load widths are modelled and proved for every SIMD convolution kernel of U8x4 and the vertical kernels of all 8-bit types (U8x4 SSE4.1 horizontal pass: "
      "u8x4_sse4_one_row_eq_portable, u8x4_sse4_four_rows_eq_portable, masks re-extracted from the source; SSE4.1 vertical pass of all 8-bit "
-     "types: vert_u8_sse4_chunk32/8/4_eq_portable, its AVX2 twin and the AVX2 four-row U8x4 kernel by reduction to the 128-bit halves; call sequences pinned, the lane models also executed against the real kernels); for all "
-     "other kernels (AVX2, 16-bit, float, other 8-bit horizontal kernels) they are tied by "
+     "types: vert_u8_sse4_chunk32/8/4_eq_portable, its AVX2 twin, the AVX2 four-row U8x4 kernel by reduction to the 128-bit halves, the AVX2 one-row kernel u8x4_avx2_one_row_eq_portable; call sequences pinned, the lane models also executed against the real kernels); for all "
+     "other kernels (16-bit, float, horizontal kernels of U8 / U8x2 / U8x3, alpha kernels) they are tied by "
      "correspondence only; NEON and WASM kernels cannot be executed here",
      "float formats: reassoc_err bounds the difference of two summation orders by (gamma(d)+gamma(d'))*sum|x k| under the standard rounding "
      "model (premise); the oracle applies a tolerance of a few f32 ulps",
